@@ -330,6 +330,11 @@ func (m *l0Machine) genCall(rt *rapid.T, r int, view interface{}) sim.Call {
 		} else if rapid.IntRange(0, 4).Draw(rt, "hostilekey") == 0 {
 			keys = keyPoolHostile
 		}
+		// with one or two keys left, a quarter of the calls remove one of them: maps that hold nothing but
+		// tombstones (and are exported, restored, rolled back in that state) should not be rare
+		if live := liveMapKeys(rep.DT); len(live) > 0 && len(live) <= 2 && rapid.IntRange(0, 3).Draw(rt, "rmlive") == 0 {
+			return sim.Call{M: "Remove", Key: rapid.SampledFrom(live).Draw(rt, "livekey")}
+		}
 		k := rapid.SampledFrom(keys).Draw(rt, "key")
 		m.mapKeys[k] = true
 		if rapid.IntRange(0, 2).Draw(rt, "putrm") == 0 {
@@ -796,4 +801,22 @@ func (m *l0Machine) canonical(actions []l0Action) string {
 
 func kindFromDraw(rt *rapid.T) sim.Kind {
 	return sim.AllKinds[rapid.IntRange(0, 3).Draw(rt, "kind")]
+}
+
+// liveMapKeys returns the keys a Map shows, sorted.
+func liveMapKeys(dt interface{}) []string {
+	b, err := json.Marshal(dt.(orda.Datatype).ToJSON())
+	if err != nil {
+		return nil
+	}
+	var mm map[string]interface{}
+	if json.Unmarshal(b, &mm) != nil {
+		return nil
+	}
+	var ks []string
+	for k := range mm {
+		ks = append(ks, k)
+	}
+	sort.Strings(ks)
+	return ks
 }
